@@ -612,3 +612,31 @@ def place_ty(db, fn, p, depth=0):
     if not pr:
         return fn.local_ty(l)
     return fn.local_ty(l) + " /" + "/".join(pr)
+
+
+def deep_origins(db, fn, op_or_place, through=None, depth=0):
+    """like Fn.origins but continues through captured variables into the creating body.
+    roots get an extra key 'fn' (the body they live in)."""
+    out = []
+    for r in fn.origins(op_or_place, through=through):
+        if r["k"] == "upvar" and depth < 6:
+            cs = creation_sites(db, fn)
+            if len(cs) == 1:
+                par, site, s = cs[0]
+                ops = s["rv"]["ops"]
+                if r["field"] < len(ops):
+                    o = ops[r["field"]]
+                    p = op_place(o)
+                    if p is not None:
+                        sub = deep_origins(db, par, [p[0], list(p[1]) + [e for e in r["proj"] if e != "*"]], through, depth + 1)
+                        for x in sub:
+                            x.setdefault("trail", [])
+                            x["trail"] = list(x["trail"]) + list(r.get("trail", []))
+                        out.extend(sub)
+                        continue
+                    else:
+                        out.append({"k": "const", "op": o, "fn": par, "proj": [], "trail": []})
+                        continue
+        r["fn"] = fn
+        out.append(r)
+    return out
